@@ -1,15 +1,16 @@
 #!/bin/bash
 # regression of every seeded change against a SNAPSHOT of the checks (so that /verif can be edited while it runs);
-# usage: tools/seedall_snap.sh <results_dir> [glob]   (snapshot is taken now, into /tmp/verif_snap.<pid>, and removed at the end)
+# usage: tools/seedall_snap.sh <results_dir> [glob] [tests]   (snapshot is taken now, into /tmp/verif_snap.<pid>, and removed at the end)
 out=${1:-/tmp/seedresults_snap}
 glob=${2:-C*}
+notests=--no-tests; [ "$3" = tests ] && notests=
 snap=/tmp/verif_snap.$$
 mkdir -p $out
 rsync -a --exclude .git --exclude replays --exclude seeded /verif/ $snap/
 cd /verif
 for d in seeded/$glob; do
   id=$(basename $d); prop=${id%%-*}
-  VERIF_HOME=$snap tools/seedrun.py $d $prop --no-tests > $out/$id.json 2>&1
-  echo "$id $(grep -m1 '"exit"' $out/$id.json)"
+  VERIF_HOME=$snap tools/seedrun.py $d $prop $notests > $out/$id.json 2>&1
+  echo "$id $(grep -m1 '"exit"' $out/$id.json) $(grep -m1 '"tests"' $out/$id.json) demo=$(grep -m1 demo_with_patch_exit $out/$id.json)/$(grep -m1 demo_clean_exit $out/$id.json)"
 done
 rm -rf $snap
